@@ -78,7 +78,7 @@ UNITS = [
 VERIFIED_CALLEES = ()
 LEVEL = "other"
 TECHNIQUE = "contract-based deductive verification of the shared loading funnel (VCs from the real AST) + bounded relational contract across 9 channels, 4 parser modes and dotted/nested spelling"
-LEVEL_TEXT = "under construction"
+LEVEL_TEXT = "Proved: load_value returns '-' as given and returns a scalar loaded from text as the original string (typing is left to the type hint, identically for argv and documents); non-mapping documents are rejected (C03 unit); environment values pass through the same _check_value_key (C04 unit). Bounded only: the relational agreement of 9 channels x 4 parser modes x dotted/nested spelling (loaders are external)."
 LEVEL_NOTE = "under construction"
 EXPLANATION = "under construction"
 ASSUMPTIONS = []
